@@ -3,6 +3,9 @@ package main
 import (
 	"fmt"
 	"math/rand"
+	"os"
+	"path/filepath"
+	"sort"
 	"strconv"
 	"strings"
 
@@ -623,8 +626,30 @@ type fmtInput struct {
 	Kind string
 }
 
+// corpusFiles returns the regression cases stored under corpus/<id>/*.evy.
+func corpusFiles(id string) []string {
+	root := os.Getenv("VERIF_ROOT")
+	if root == "" {
+		root = "/verif"
+	}
+	names, _ := filepath.Glob(filepath.Join(root, "corpus", id, "*.evy"))
+	sort.Strings(names)
+	var out []string
+	for _, n := range names {
+		if b, err := os.ReadFile(n); err == nil {
+			out = append(out, string(b))
+		}
+	}
+	return out
+}
+
 func fmtInputs(cfg Config, nGen int, withStray bool) []fmtInput {
 	var ins []fmtInput
+	for _, id := range []string{"C06", "C07"} {
+		for _, s := range corpusFiles(id) {
+			ins = append(ins, fmtInput{s, "corpus-file"})
+		}
+	}
 	for _, s := range fmtCorpus {
 		ins = append(ins, fmtInput{s, "handwritten"})
 	}
